@@ -9,7 +9,7 @@ from decimal import Decimal
 from functools import reduce
 import xml.etree.ElementTree as ET
 
-from lemoncheesecake.reporting.backend import FileReportBackend
+from lemoncheesecake.reporting.backend import FileReportBackend, atomic_write
 from lemoncheesecake.reporting import ReportStats, Log, Check, format_time_as_iso8601
 from lemoncheesecake.reporting.backends.xml import make_xml_child, make_xml_node, indent_xml, DEFAULT_INDENT_LEVEL
 
@@ -91,7 +91,7 @@ def serialize_report_as_string(report, indent_level=DEFAULT_INDENT_LEVEL):
 
 def save_report_into_file(report, filename, indent_level=DEFAULT_INDENT_LEVEL):
     content = serialize_report_as_string(report, indent_level)
-    with open(filename, "w") as fh:
+    with atomic_write(filename) as fh:
         fh.write(content)
 
 
